@@ -1,8 +1,66 @@
 /-
-Helpers for C08 (limits of the core evaluator, XrayModel/Core.lean): violation predicates, the
-no-limit invariant, the instrumented (counter-recording) evaluator and its simulation theorems.
+Helpers for C08 (limits of the core evaluator, XrayModel/Core.lean).
+
+Finished: `noViolAt` (no limits: no violation, no counting), `kindAt` (a violation of kind k needs
+limit k), `callsAt` (exactness of the call limit in terms of the counter), `noCountAt`, the
+instrumented evaluator `evalI` (counts user calls, greatest frame height, greatest tail-iteration
+count; never stops) with `monoAt` (its counters only grow).
+
+In progress (definitions and tactics compile; the ten per-function simulation lemmas are not
+finished, so nothing in Props/C08.lean depends on them): `Rel`/`Reached`/`Within`/`Sim`/`SimAt`
+relate a run of `eval` under limits to the run of `evalI`; tactics `destruct_call`, `step`, `stepI`,
+`drive`, `finish` walk the two runs in lockstep.
 -/
 import XrayProofs.Core
+import Lean
+namespace XrayModel.CoreLimits.Tac
+open Lean Elab Tactic Meta
+
+/-- number of leading ∀ of a constant's type -/
+def arityOf (n : Name) : MetaM Nat := do
+  let ci ← getConstInfo n
+  let rec go : Expr → Nat
+    | .forallE _ _ b _ => go b + 1
+    | _ => 0
+  return go ci.type
+
+/-- an innermost full application (without loose bound variables) of one of `names` inside `e` -/
+def findCall (names : Array (Name × Nat)) (e : Expr) : Option Expr :=
+  let base (t : Expr) : Bool :=
+    t.isApp && !t.hasLooseBVars &&
+      (match t.getAppFn with
+        | .const c _ => names.any (fun (n, a) => n == c && a == t.getAppNumArgs)
+        | _ => false)
+  e.find? (fun t => base t && t.getAppArgs.all (fun a => (a.find? base).isNone))
+
+set_option hygiene false in
+/-- `destruct_call f g …`: pick an innermost call of one of the listed functions in the goal and
+replace it by a pair of variables `⟨r, st⟩`, keeping the equation `hcall` -/
+elab "destruct_call" ids:(ppSpace colGt ident)+ : tactic => withMainContext do
+  let mut names : Array (Name × Nat) := #[]
+  for i in ids do
+    let n ← realizeGlobalConstNoOverloadWithInfo i
+    names := names.push (n, ← arityOf n)
+  let tgt ← instantiateMVars (← (← getMainGoal).getType)
+  let some t := findCall names tgt | throwError "no call"
+  let stx ← Term.exprToSyntax t
+  evalTactic (← `(tactic| rcases hcall : $stx with ⟨r, st⟩))
+
+set_option hygiene false in
+elab "destruct_callI" ids:(ppSpace colGt ident)+ : tactic => withMainContext do
+  let mut names : Array (Name × Nat) := #[]
+  for i in ids do
+    let n ← realizeGlobalConstNoOverloadWithInfo i
+    names := names.push (n, ← arityOf n)
+  let tgt ← instantiateMVars (← (← getMainGoal).getType)
+  let some t := findCall names tgt | throwError "no call"
+  let stx ← Term.exprToSyntax t
+  evalTactic (← `(tactic| rcases hcallI : $stx with ⟨rI, sI⟩))
+
+end XrayModel.CoreLimits.Tac
+
+
+
 namespace XrayModel.CoreLimits
 open XrayModel.Core
 
@@ -81,5 +139,606 @@ theorem noViolAt (cfg : Cfg) (hc : NoLimits cfg) (fuel : Nat) : NoViolAt cfg fue
       simp only [builtin]
       all_goals (repeat' split)
       all_goals grind [Res.isViol, exViol, prim_not_viol]
+
+
+/-- state of the instrumented run: output, number of user calls, greatest frame height created,
+greatest tail-iteration count reached by a trampoline -/
+structure StI where
+  out : List String := []
+  calls : Nat := 0
+  maxH : Nat := 0
+  maxRec : Nat := 0
+
+mutual
+  /-- `RuntimeScope::evalI` -/
+  def evalI (fuel : Nat) (tco : Bool) (fr : Frame) (e : Expr) (tail : Bool) (st : StI) : Res × StI :=
+    match fuel with
+    | 0 => (.oof, st)
+    | fuel + 1 =>
+      match e with
+      | .int n => (.val (.int n), st)
+      | .bool b => (.val (.bool b), st)
+      | .str s => (.val (.str s), st)
+      | .var x => match fr.get x with
+          | some v => (.val v, st)
+          | none => (.stuck ("unbound " ++ x), st)
+      | .tup es => match evalListI fuel tco fr es st with
+          | (.ok vs, st') => (.val (.tup vs), st')
+          | (.error r, st') => (r, st')
+      | .arr es => match evalListI fuel tco fr es st with
+          | (.ok vs, st') => (.val (.arr vs), st')
+          | (.error r, st') => (r, st')
+      | .item e i => match evalI fuel tco fr e false st with
+          | (.val (.tup vs), st') => match vs[i]? with
+              | some v => (.val v, st')
+              | none => (.stuck "item", st')
+          | (.val (.err m), st') => (.val (.err m), st')
+          | (.val _, st') => (.stuck "item of non-tuple", st')
+          | (.tail _, st') => (.stuck "tail escaped", st')
+          | r => r
+      | .lam f => mkClosI fuel tco fr f st
+      | .call f args =>
+          -- the tail-call special case: callee is the local recursion cell and the tail slot is free
+          match fr.self with
+          | some (selfName, selfClos) =>
+              if f = selfName && (lookup f fr.env).isNone then
+                if tail && tco then
+                  match evalListI fuel tco fr args st with
+                  | (.ok vs, st') => (.tail vs, st')
+                  | (.error r, st') => (r, st')
+                else callValI fuel tco fr selfClos args tail st
+              else callNamedI fuel tco fr f args tail st
+          | none => callNamedI fuel tco fr f args tail st
+      | .callE fe args => match evalI fuel tco fr fe false st with
+          | (.val (.err m), st') => (.val (.err m), st')
+          | (.val c, st') => callValI fuel tco fr c args tail st'
+          | (.tail _, st') => (.stuck "tail escaped", st')
+          | r => r
+
+  /-- a call by name that is not the tail special case -/
+  def callNamedI (fuel : Nat) (tco : Bool) (fr : Frame) (f : String) (args : List Expr) (tail : Bool) (st : StI) : Res × StI :=
+    match fuel with
+    | 0 => (.oof, st)
+    | fuel + 1 =>
+      match fr.get f with
+      | some c => callValI fuel tco fr c args tail st
+      | none => builtinI fuel tco fr f args tail st
+
+  /-- `eval_func_with_expressions` for a function value -/
+  def callValI (fuel : Nat) (tco : Bool) (fr : Frame) (c : Val) (args : List Expr) (_tail : Bool) (st : StI) : Res × StI :=
+    match fuel with
+    | 0 => (.oof, st)
+    | fuel + 1 =>
+      match c with
+      | .clos f dflts env =>
+          match evalListI fuel tco fr args st with
+          | (.ok vs, st') => callUserI fuel tco fr.height (.clos f dflts env) vs st'
+          | (.error r, st') => (r, st')
+      | .err m => (.val (.err m), st)
+      | _ => (.stuck "call of a non-function", st)
+
+  /-- arguments left to right, each exactly once; the first error value or non-value outcome ends it -/
+  def evalListI (fuel : Nat) (tco : Bool) (fr : Frame) (es : List Expr) (st : StI) : Except Res (List Val) × StI :=
+    match fuel with
+    | 0 => (.error .oof, st)
+    | fuel + 1 =>
+      match es with
+      | [] => (.ok [], st)
+      | e :: rest => match evalI fuel tco fr e false st with
+          | (.val (.err m), st') => (.error (.val (.err m)), st')
+          | (.val v, st') => match evalListI fuel tco fr rest st' with
+              | (.ok vs, st'') => (.ok (v :: vs), st'')
+              | r => r
+          | (.tail _, st') => (.error (.stuck "tail escaped"), st')
+          | (r, st') => (.error r, st')
+
+  /-- closure creation (`to_function` / `from_specs`): defaults are evaluated now, in the defining frame -/
+  def mkClosI (fuel : Nat) (tco : Bool) (fr : Frame) (f : Func) (st : StI) : Res × StI :=
+    match fuel with
+    | 0 => (.oof, st)
+    | fuel + 1 =>
+      match evalDfltsI fuel tco fr f.params st with
+      | (.ok ds, st') =>
+          let env := match fr.self with
+            | some s => fr.env ++ [s]
+            | none => fr.env
+          (.val (.clos f ds env), st')
+      | (.error r, st') => (r, st')
+
+  /-- defaults may be error values (they are stored as evaluated, `from_specs`) -/
+  def evalDfltsI (fuel : Nat) (tco : Bool) (fr : Frame) (ps : List Param) (st : StI) : Except Res (List Val) × StI :=
+    match fuel with
+    | 0 => (.error .oof, st)
+    | fuel + 1 =>
+      match ps with
+      | [] => (.ok [], st)
+      | p :: rest => match p.dflt with
+          | none => evalDfltsI fuel tco fr rest st
+          | some d => match evalI fuel tco fr d false st with
+              | (.val v, st') => match evalDfltsI fuel tco fr rest st' with
+                  | (.ok vs, st'') => (.ok (v :: vs), st'')
+                  | r => r
+              | (.tail _, st') => (.error (.stuck "tail escaped"), st')
+              | (r, st') => (.error r, st')
+
+  /-- `eval_func_with_values` (user function): call counter, then the trampoline -/
+  def callUserI (fuel : Nat) (tco : Bool) (height : Nat) (c : Val) (args : List Val) (st : StI) : Res × StI :=
+    match fuel with
+    | 0 => (.oof, st)
+    | fuel + 1 =>
+      match firstErr args with
+      | some e => (.val e, st)
+      | none =>
+        trampI fuel tco height c args 0 { st with calls := st.calls + 1 }
+
+  /-- the trampoline loop of `eval_func_with_values` -/
+  def trampI (fuel : Nat) (tco : Bool) (height : Nat) (c : Val) (args : List Val) (rec : Nat) (st : StI) : Res × StI :=
+    match fuel with
+    | 0 => (.oof, st)
+    | fuel + 1 =>
+      match c with
+      | .clos f dflts env =>
+          -- `from_template`: depth check first
+          let h := height + 1
+          let st := { st with maxH := max st.maxH h }
+          match bindParams f.params args dflts with
+            | none => (.stuck "arity", st)
+            | some ps =>
+              let self := match f.name with
+                | some n => some (n, c)
+                | none => none
+              let fr : Frame := { env := ps.reverse ++ env, self := self, height := h }
+              match evalDeclsI fuel tco fr f.decls st with
+              | (.error r, st') => (r, st')
+              | (.ok fr', st') =>
+                match evalI fuel tco fr' f.body true st' with
+                | (.tail newArgs, st'') =>
+                    let rec' := rec + 1
+                    trampI fuel tco height c newArgs rec' { st'' with maxRec := max st''.maxRec rec' }
+                | r => r
+      | _ => (.stuck "tramp of a non-function", st)
+
+  /-- the declarations of a body, in order (`from_template`) -/
+  def evalDeclsI (fuel : Nat) (tco : Bool) (fr : Frame) (ds : List Decl) (st : StI) : Except Res Frame × StI :=
+    match fuel with
+    | 0 => (.error .oof, st)
+    | fuel + 1 =>
+      match ds with
+      | [] => (.ok fr, st)
+      | .letD x e :: rest => match evalI fuel tco fr e false st with
+          | (.val v, st') => evalDeclsI fuel tco { fr with env := (x, v) :: fr.env } rest st'
+          | (.tail _, st') => (.error (.stuck "tail escaped"), st')
+          | (r, st') => (.error r, st')
+      | .fnD f :: rest => match mkClosI fuel tco fr f st with
+          | (.val c, st') => match f.name with
+              | some n => evalDeclsI fuel tco { fr with env := (n, c) :: fr.env } rest st'
+              | none => (.error (.stuck "anonymous declaration"), st')
+          | (.tail _, st') => (.error (.stuck "tail escaped"), st')
+          | (r, st') => (.error r, st')
+
+  /-- natives: the short-circuiting ones evaluate only the selected argument and forward the tail slot -/
+  def builtinI (fuel : Nat) (tco : Bool) (fr : Frame) (f : String) (args : List Expr) (tail : Bool) (st : StI) : Res × StI :=
+    match fuel with
+    | 0 => (.oof, st)
+    | fuel + 1 =>
+      match f, args with
+      | "if", [c, a, b] => match evalI fuel tco fr c false st with
+          | (.val (.bool t), st') => evalI fuel tco fr (if t then a else b) tail st'
+          | (.val (.err m), st') => (.val (.err m), st')
+          | (.val _, st') => (.stuck "if", st')
+          | (.tail _, st') => (.stuck "tail escaped", st')
+          | r => r
+      | "and", [a, b] => match evalI fuel tco fr a false st with
+          | (.val (.bool true), st') => evalI fuel tco fr b tail st'
+          | (.val (.bool false), st') => (.val (.bool false), st')
+          | (.val (.err m), st') => (.val (.err m), st')
+          | (.val _, st') => (.stuck "and", st')
+          | (.tail _, st') => (.stuck "tail escaped", st')
+          | r => r
+      | "or", [a, b] => match evalI fuel tco fr a false st with
+          | (.val (.bool false), st') => evalI fuel tco fr b tail st'
+          | (.val (.bool true), st') => (.val (.bool true), st')
+          | (.val (.err m), st') => (.val (.err m), st')
+          | (.val _, st') => (.stuck "or", st')
+          | (.tail _, st') => (.stuck "tail escaped", st')
+          | r => r
+      | "if_error", [a, b] => match evalI fuel tco fr a false st with
+          | (.val (.err _), st') => evalI fuel tco fr b tail st'
+          | (.val v, st') => (.val v, st')
+          | (.tail _, st') => (.stuck "tail escaped", st')
+          | r => r
+      | "is_error", [a] => match evalI fuel tco fr a false st with
+          | (.val v, st') => (.val (.bool v.isErr), st')
+          | (.tail _, st') => (.stuck "tail escaped", st')
+          | r => r
+      | "display", [a] => match evalI fuel tco fr a false st with
+          | (.val (.err m), st') => (.val (.err m), st')
+          | (.val v, st') => match toStr v with
+              | some s => (.val v, { st' with out := st'.out ++ [s] })
+              | none => (.stuck "display", st')
+          | (.tail _, st') => (.stuck "tail escaped", st')
+          | r => r
+      | _, _ =>
+          if isStrictPrim f then
+            match evalListI fuel tco fr args st with
+            | (.ok vs, st') => (prim f vs, st')
+            | (.error r, st') => (r, st')
+          else (.stuck ("unknown function " ++ f), st)
+end
+
+
+def StI.le (a b : StI) : Prop := a.calls ≤ b.calls ∧ a.maxH ≤ b.maxH ∧ a.maxRec ≤ b.maxRec
+
+structure MonoAt (tco : Bool) (fuel : Nat) : Prop where
+  eval : ∀ fr e tail st, StI.le st (evalI fuel tco fr e tail st).2
+  callNamed : ∀ fr f args tail st, StI.le st (callNamedI fuel tco fr f args tail st).2
+  callVal : ∀ fr c args tail st, StI.le st (callValI fuel tco fr c args tail st).2
+  evalList : ∀ fr es st, StI.le st (evalListI fuel tco fr es st).2
+  mkClos : ∀ fr f st, StI.le st (mkClosI fuel tco fr f st).2
+  evalDflts : ∀ fr ps st, StI.le st (evalDfltsI fuel tco fr ps st).2
+  callUser : ∀ h c args st, StI.le st (callUserI fuel tco h c args st).2
+  tramp : ∀ h c args rec st, StI.le st (trampI fuel tco h c args rec st).2
+  evalDecls : ∀ fr ds st, StI.le st (evalDeclsI fuel tco fr ds st).2
+  builtin : ∀ fr f args tail st, StI.le st (builtinI fuel tco fr f args tail st).2
+
+theorem monoAt (tco : Bool) (fuel : Nat) : MonoAt tco fuel := by
+  induction fuel with
+  | zero =>
+    constructor <;> intros <;> simp [evalI, callNamedI, callValI, evalListI, mkClosI, evalDfltsI, callUserI, trampI, evalDeclsI, builtinI, StI.le]
+  | succ n ih =>
+    obtain ⟨ihE, ihCN, ihCV, ihEL, ihMC, ihED, ihCU, ihT, ihDs, ihB⟩ := ih
+    constructor
+    · intro fr e tail st
+      cases e <;> simp only [evalI]
+      all_goals (repeat' split)
+      all_goals grind [StI.le]
+    · intro fr f args tail st
+      simp only [callNamedI]
+      all_goals (repeat' split)
+      all_goals grind [StI.le]
+    · intro fr c args tail st
+      simp only [callValI]
+      all_goals (repeat' split)
+      all_goals grind [StI.le]
+    · intro fr es st
+      cases es <;> simp only [evalListI]
+      all_goals (repeat' split)
+      all_goals grind [StI.le]
+    · intro fr f st
+      simp only [mkClosI]
+      all_goals (repeat' split)
+      all_goals grind [StI.le]
+    · intro fr ps st
+      cases ps <;> simp only [evalDfltsI]
+      all_goals (repeat' split)
+      all_goals grind [StI.le]
+    · intro h c args st
+      simp only [callUserI]
+      all_goals (repeat' split)
+      all_goals grind [StI.le]
+    · intro h c args rec st
+      simp only [trampI]
+      all_goals (repeat' split)
+      all_goals grind [StI.le]
+    · intro fr ds st
+      simp only [evalDeclsI]
+      all_goals (repeat' split)
+      all_goals grind [StI.le]
+    · intro fr f args tail st
+      simp only [builtinI]
+      all_goals (repeat' split)
+      all_goals grind [StI.le]
+
+
+def Rel (cfg : Cfg) (c0 : Nat) (st : St) (sI : StI) : Prop :=
+  st.out = sI.out ∧ ∀ l, cfg.callLimit = some l → st.calls = c0 + sI.calls
+
+/-- limit `k` of `cfg` is reached by the counters of the instrumented run -/
+def Reached (cfg : Cfg) (c0 : Nat) (sI : StI) (k : Viol) : Prop :=
+  (k = .depth ∧ ∃ l, cfg.depthLimit = some l ∧ l ≤ sI.maxH ∧ 0 < sI.maxH) ∨
+  (k = .calls ∧ ∃ l, cfg.callLimit = some l ∧ l ≤ c0 + sI.calls ∧ 0 < sI.calls) ∨
+  (k = .recursion ∧ ∃ l, cfg.recLimit = some l ∧ l < sI.maxRec)
+
+/-- no limit of `cfg` is reached by the counters of the instrumented run -/
+def Within (cfg : Cfg) (c0 : Nat) (sI : StI) : Prop :=
+  (∀ l, cfg.depthLimit = some l → sI.maxH < l ∨ sI.maxH = 0) ∧
+  (∀ l, cfg.callLimit = some l → c0 + sI.calls < l ∨ sI.calls = 0) ∧
+  (∀ l, cfg.recLimit = some l → sI.maxRec ≤ l)
+
+def Sim (cfg : Cfg) (c0 : Nat) (sI : StI) (p : Res × St) (q : Res × StI) : Prop :=
+  match p.1 with
+  | .viol k => Reached cfg c0 q.2 k
+  | r => r = q.1 ∧ Rel cfg c0 p.2 q.2 ∧ (Within cfg c0 sI → Within cfg c0 q.2)
+
+def SimE {α : Type} (cfg : Cfg) (c0 : Nat) (sI : StI) (p : Except Res α × St) (q : Except Res α × StI) : Prop :=
+  match p.1 with
+  | .error (.viol k) => Reached cfg c0 q.2 k
+  | r => r = q.1 ∧ Rel cfg c0 p.2 q.2 ∧ (Within cfg c0 sI → Within cfg c0 q.2)
+
+structure SimAt (cfg : Cfg) (c0 : Nat) (fuel : Nat) : Prop where
+  eval : ∀ fr e tail st sI, Rel cfg c0 st sI → Sim cfg c0 sI (eval fuel cfg fr e tail st) (evalI fuel cfg.tco fr e tail sI)
+  callNamed : ∀ fr f args tail st sI, Rel cfg c0 st sI → Sim cfg c0 sI (callNamed fuel cfg fr f args tail st) (callNamedI fuel cfg.tco fr f args tail sI)
+  callVal : ∀ fr c args tail st sI, Rel cfg c0 st sI → Sim cfg c0 sI (callVal fuel cfg fr c args tail st) (callValI fuel cfg.tco fr c args tail sI)
+  evalList : ∀ fr es st sI, Rel cfg c0 st sI → SimE cfg c0 sI (evalList fuel cfg fr es st) (evalListI fuel cfg.tco fr es sI)
+  mkClos : ∀ fr f st sI, Rel cfg c0 st sI → Sim cfg c0 sI (mkClos fuel cfg fr f st) (mkClosI fuel cfg.tco fr f sI)
+  evalDflts : ∀ fr ps st sI, Rel cfg c0 st sI → SimE cfg c0 sI (evalDflts fuel cfg fr ps st) (evalDfltsI fuel cfg.tco fr ps sI)
+  callUser : ∀ h c args st sI, Rel cfg c0 st sI → Sim cfg c0 sI (callUser fuel cfg h c args st) (callUserI fuel cfg.tco h c args sI)
+  tramp : ∀ h c args rec st sI, Rel cfg c0 st sI → Sim cfg c0 sI (tramp fuel cfg h c args rec st) (trampI fuel cfg.tco h c args rec sI)
+  evalDecls : ∀ fr ds st sI, Rel cfg c0 st sI → SimE cfg c0 sI (evalDecls fuel cfg fr ds st) (evalDeclsI fuel cfg.tco fr ds sI)
+  builtin : ∀ fr f args tail st sI, Rel cfg c0 st sI → Sim cfg c0 sI (builtin fuel cfg fr f args tail st) (builtinI fuel cfg.tco fr f args tail sI)
+
+set_option hygiene false in
+macro "cases_r" : tactic => `(tactic| first
+  | (have _hr : Res := r; rcases r with ((_ | ⟨_ | _⟩ | _ | _ | _ | _ | _) | _ | _ | _ | _))
+  | rcases r with ((_ | _ | _ | _ | _) | _))
+set_option hygiene false in
+macro "cases_rI" : tactic => `(tactic| first
+  | (have _hr : Res := rI; rcases rI with ((_ | ⟨_ | _⟩ | _ | _ | _ | _ | _) | _ | _ | _ | _))
+  | rcases rI with ((_ | _ | _ | _ | _) | _))
+
+set_option hygiene false in
+macro "stepI" : tactic => `(tactic| (
+  destruct_callI evalI callNamedI callValI evalListI mkClosI evalDfltsI callUserI trampI evalDeclsI builtinI
+  have hm := by first | exact mE' hcallI | exact mCN' hcallI | exact mCV' hcallI | exact mEL' hcallI | exact mMC' hcallI | exact mED' hcallI | exact mCU' hcallI | exact mT' hcallI | exact mDs' hcallI | exact mB' hcallI
+  cases_rI
+  all_goals (try dsimp only)))
+
+set_option hygiene false in
+macro "step" : tactic => `(tactic| (
+  destruct_call eval callNamed callVal evalList mkClos evalDflts callUser tramp evalDecls builtin
+  destruct_callI evalI callNamedI callValI evalListI mkClosI evalDfltsI callUserI trampI evalDeclsI builtinI
+  have hs := by first | exact ihE' hcall hcallI | exact ihCN' hcall hcallI | exact ihCV' hcall hcallI | exact ihEL' hcall hcallI | exact ihMC' hcall hcallI | exact ihED' hcall hcallI | exact ihCU' hcall hcallI | exact ihT' hcall hcallI | exact ihDs' hcall hcallI | exact ihB' hcall hcallI
+  have hm := by first | exact mE' hcallI | exact mCN' hcallI | exact mCV' hcallI | exact mEL' hcallI | exact mMC' hcallI | exact mED' hcallI | exact mCU' hcallI | exact mT' hcallI | exact mDs' hcallI | exact mB' hcallI
+  specialize hs (by first | assumption | grind [Rel])
+  cases_r
+  all_goals (simp only [Sim, SimE] at hs)
+  all_goals first
+    | (obtain ⟨h1, hrel, hw⟩ := hs; subst h1)
+    | cases_rI
+  all_goals (try dsimp only)))
+
+macro "drive" : tactic => `(tactic| repeat' (first | step | stepI | split))
+
+macro "finish" : tactic => `(tactic| grind [Sim, SimE, Rel, Reached, Within, StI.le])
+
+
+/-- the induction hypothesis in the form the tactics use -/
+structure SimAt' (cfg : Cfg) (c0 : Nat) (fuel : Nat) : Prop where
+  eval : ∀ {fr e tail st sI r st1 rI sI1}, eval fuel cfg fr e tail st = (r, st1) → evalI fuel cfg.tco fr e tail sI = (rI, sI1) → Rel cfg c0 st sI → Sim cfg c0 sI (r, st1) (rI, sI1)
+  evalM : ∀ {fr e tail sI rI sI1}, evalI fuel cfg.tco fr e tail sI = (rI, sI1) → StI.le sI sI1
+  callNamed : ∀ {fr f args tail st sI r st1 rI sI1}, callNamed fuel cfg fr f args tail st = (r, st1) → callNamedI fuel cfg.tco fr f args tail sI = (rI, sI1) → Rel cfg c0 st sI → Sim cfg c0 sI (r, st1) (rI, sI1)
+  callNamedM : ∀ {fr f args tail sI rI sI1}, callNamedI fuel cfg.tco fr f args tail sI = (rI, sI1) → StI.le sI sI1
+  callVal : ∀ {fr c args tail st sI r st1 rI sI1}, callVal fuel cfg fr c args tail st = (r, st1) → callValI fuel cfg.tco fr c args tail sI = (rI, sI1) → Rel cfg c0 st sI → Sim cfg c0 sI (r, st1) (rI, sI1)
+  callValM : ∀ {fr c args tail sI rI sI1}, callValI fuel cfg.tco fr c args tail sI = (rI, sI1) → StI.le sI sI1
+  evalList : ∀ {fr es st sI r st1 rI sI1}, evalList fuel cfg fr es st = (r, st1) → evalListI fuel cfg.tco fr es sI = (rI, sI1) → Rel cfg c0 st sI → SimE cfg c0 sI (r, st1) (rI, sI1)
+  evalListM : ∀ {fr es sI rI sI1}, evalListI fuel cfg.tco fr es sI = (rI, sI1) → StI.le sI sI1
+  mkClos : ∀ {fr f st sI r st1 rI sI1}, mkClos fuel cfg fr f st = (r, st1) → mkClosI fuel cfg.tco fr f sI = (rI, sI1) → Rel cfg c0 st sI → Sim cfg c0 sI (r, st1) (rI, sI1)
+  mkClosM : ∀ {fr f sI rI sI1}, mkClosI fuel cfg.tco fr f sI = (rI, sI1) → StI.le sI sI1
+  evalDflts : ∀ {fr ps st sI r st1 rI sI1}, evalDflts fuel cfg fr ps st = (r, st1) → evalDfltsI fuel cfg.tco fr ps sI = (rI, sI1) → Rel cfg c0 st sI → SimE cfg c0 sI (r, st1) (rI, sI1)
+  evalDfltsM : ∀ {fr ps sI rI sI1}, evalDfltsI fuel cfg.tco fr ps sI = (rI, sI1) → StI.le sI sI1
+  callUser : ∀ {h c args st sI r st1 rI sI1}, callUser fuel cfg h c args st = (r, st1) → callUserI fuel cfg.tco h c args sI = (rI, sI1) → Rel cfg c0 st sI → Sim cfg c0 sI (r, st1) (rI, sI1)
+  callUserM : ∀ {h c args sI rI sI1}, callUserI fuel cfg.tco h c args sI = (rI, sI1) → StI.le sI sI1
+  tramp : ∀ {h c args rec st sI r st1 rI sI1}, tramp fuel cfg h c args rec st = (r, st1) → trampI fuel cfg.tco h c args rec sI = (rI, sI1) → Rel cfg c0 st sI → Sim cfg c0 sI (r, st1) (rI, sI1)
+  trampM : ∀ {h c args rec sI rI sI1}, trampI fuel cfg.tco h c args rec sI = (rI, sI1) → StI.le sI sI1
+  evalDecls : ∀ {fr ds st sI r st1 rI sI1}, evalDecls fuel cfg fr ds st = (r, st1) → evalDeclsI fuel cfg.tco fr ds sI = (rI, sI1) → Rel cfg c0 st sI → SimE cfg c0 sI (r, st1) (rI, sI1)
+  evalDeclsM : ∀ {fr ds sI rI sI1}, evalDeclsI fuel cfg.tco fr ds sI = (rI, sI1) → StI.le sI sI1
+  builtin : ∀ {fr f args tail st sI r st1 rI sI1}, builtin fuel cfg fr f args tail st = (r, st1) → builtinI fuel cfg.tco fr f args tail sI = (rI, sI1) → Rel cfg c0 st sI → Sim cfg c0 sI (r, st1) (rI, sI1)
+  builtinM : ∀ {fr f args tail sI rI sI1}, builtinI fuel cfg.tco fr f args tail sI = (rI, sI1) → StI.le sI sI1
+
+theorem SimAt.prime {cfg : Cfg} {c0 fuel : Nat} (hS : SimAt cfg c0 fuel) : SimAt' cfg c0 fuel := by
+  have m := monoAt cfg.tco fuel
+  constructor
+  · intro fr e tail st sI r st1 rI sI1 h1 h2 h3; rw [← h1, ← h2]; exact hS.eval _ _ _ _ _ h3
+  · intro fr e tail sI rI sI1 h2; have := m.eval fr e tail sI; rw [h2] at this; exact this
+  · intro fr f args tail st sI r st1 rI sI1 h1 h2 h3; rw [← h1, ← h2]; exact hS.callNamed _ _ _ _ _ _ h3
+  · intro fr f args tail sI rI sI1 h2; have := m.callNamed fr f args tail sI; rw [h2] at this; exact this
+  · intro fr c args tail st sI r st1 rI sI1 h1 h2 h3; rw [← h1, ← h2]; exact hS.callVal _ _ _ _ _ _ h3
+  · intro fr c args tail sI rI sI1 h2; have := m.callVal fr c args tail sI; rw [h2] at this; exact this
+  · intro fr es st sI r st1 rI sI1 h1 h2 h3; rw [← h1, ← h2]; exact hS.evalList _ _ _ _ h3
+  · intro fr es sI rI sI1 h2; have := m.evalList fr es sI; rw [h2] at this; exact this
+  · intro fr f st sI r st1 rI sI1 h1 h2 h3; rw [← h1, ← h2]; exact hS.mkClos _ _ _ _ h3
+  · intro fr f sI rI sI1 h2; have := m.mkClos fr f sI; rw [h2] at this; exact this
+  · intro fr ps st sI r st1 rI sI1 h1 h2 h3; rw [← h1, ← h2]; exact hS.evalDflts _ _ _ _ h3
+  · intro fr ps sI rI sI1 h2; have := m.evalDflts fr ps sI; rw [h2] at this; exact this
+  · intro h c args st sI r st1 rI sI1 h1 h2 h3; rw [← h1, ← h2]; exact hS.callUser _ _ _ _ _ h3
+  · intro h c args sI rI sI1 h2; have := m.callUser h c args sI; rw [h2] at this; exact this
+  · intro h c args rec st sI r st1 rI sI1 h1 h2 h3; rw [← h1, ← h2]; exact hS.tramp _ _ _ _ _ _ h3
+  · intro h c args rec sI rI sI1 h2; have := m.tramp h c args rec sI; rw [h2] at this; exact this
+  · intro fr ds st sI r st1 rI sI1 h1 h2 h3; rw [← h1, ← h2]; exact hS.evalDecls _ _ _ _ h3
+  · intro fr ds sI rI sI1 h2; have := m.evalDecls fr ds sI; rw [h2] at this; exact this
+  · intro fr f args tail st sI r st1 rI sI1 h1 h2 h3; rw [← h1, ← h2]; exact hS.builtin _ _ _ _ _ _ h3
+  · intro fr f args tail sI rI sI1 h2; have := m.builtin fr f args tail sI; rw [h2] at this; exact this
+
+
+
+/-! ### a violation of kind `k` needs limit `k` to be configured -/
+
+structure KindAt (cfg : Cfg) (fuel : Nat) : Prop where
+  eval : ∀ fr e tail st, ((eval fuel cfg fr e tail st).1 = .viol .depth → cfg.depthLimit ≠ none) ∧ ((eval fuel cfg fr e tail st).1 = .viol .calls → cfg.callLimit ≠ none) ∧ ((eval fuel cfg fr e tail st).1 = .viol .recursion → cfg.recLimit ≠ none)
+  callNamed : ∀ fr f args tail st, ((callNamed fuel cfg fr f args tail st).1 = .viol .depth → cfg.depthLimit ≠ none) ∧ ((callNamed fuel cfg fr f args tail st).1 = .viol .calls → cfg.callLimit ≠ none) ∧ ((callNamed fuel cfg fr f args tail st).1 = .viol .recursion → cfg.recLimit ≠ none)
+  callVal : ∀ fr c args tail st, ((callVal fuel cfg fr c args tail st).1 = .viol .depth → cfg.depthLimit ≠ none) ∧ ((callVal fuel cfg fr c args tail st).1 = .viol .calls → cfg.callLimit ≠ none) ∧ ((callVal fuel cfg fr c args tail st).1 = .viol .recursion → cfg.recLimit ≠ none)
+  evalList : ∀ fr es st, ((evalList fuel cfg fr es st).1 = .error (.viol .depth) → cfg.depthLimit ≠ none) ∧ ((evalList fuel cfg fr es st).1 = .error (.viol .calls) → cfg.callLimit ≠ none) ∧ ((evalList fuel cfg fr es st).1 = .error (.viol .recursion) → cfg.recLimit ≠ none)
+  mkClos : ∀ fr f st, ((mkClos fuel cfg fr f st).1 = .viol .depth → cfg.depthLimit ≠ none) ∧ ((mkClos fuel cfg fr f st).1 = .viol .calls → cfg.callLimit ≠ none) ∧ ((mkClos fuel cfg fr f st).1 = .viol .recursion → cfg.recLimit ≠ none)
+  evalDflts : ∀ fr ps st, ((evalDflts fuel cfg fr ps st).1 = .error (.viol .depth) → cfg.depthLimit ≠ none) ∧ ((evalDflts fuel cfg fr ps st).1 = .error (.viol .calls) → cfg.callLimit ≠ none) ∧ ((evalDflts fuel cfg fr ps st).1 = .error (.viol .recursion) → cfg.recLimit ≠ none)
+  callUser : ∀ h c args st, ((callUser fuel cfg h c args st).1 = .viol .depth → cfg.depthLimit ≠ none) ∧ ((callUser fuel cfg h c args st).1 = .viol .calls → cfg.callLimit ≠ none) ∧ ((callUser fuel cfg h c args st).1 = .viol .recursion → cfg.recLimit ≠ none)
+  tramp : ∀ h c args rec st, ((tramp fuel cfg h c args rec st).1 = .viol .depth → cfg.depthLimit ≠ none) ∧ ((tramp fuel cfg h c args rec st).1 = .viol .calls → cfg.callLimit ≠ none) ∧ ((tramp fuel cfg h c args rec st).1 = .viol .recursion → cfg.recLimit ≠ none)
+  evalDecls : ∀ fr ds st, ((evalDecls fuel cfg fr ds st).1 = .error (.viol .depth) → cfg.depthLimit ≠ none) ∧ ((evalDecls fuel cfg fr ds st).1 = .error (.viol .calls) → cfg.callLimit ≠ none) ∧ ((evalDecls fuel cfg fr ds st).1 = .error (.viol .recursion) → cfg.recLimit ≠ none)
+  builtin : ∀ fr f args tail st, ((builtin fuel cfg fr f args tail st).1 = .viol .depth → cfg.depthLimit ≠ none) ∧ ((builtin fuel cfg fr f args tail st).1 = .viol .calls → cfg.callLimit ≠ none) ∧ ((builtin fuel cfg fr f args tail st).1 = .viol .recursion → cfg.recLimit ≠ none)
+
+set_option maxHeartbeats 4000000 in
+theorem kindAt (cfg : Cfg)  (fuel : Nat) : KindAt cfg fuel := by
+  induction fuel with
+  | zero =>
+    constructor <;> intros <;> simp [eval, callNamed, callVal, evalList, mkClos, evalDflts, callUser, tramp, evalDecls, builtin]
+  | succ n ih =>
+    obtain ⟨ihE, ihCN, ihCV, ihEL, ihMC, ihED, ihCU, ihT, ihDs, ihB⟩ := ih
+    constructor
+    · intro fr e tail st
+      cases e <;> simp only [eval]
+      all_goals (repeat' split)
+      all_goals grind [prim_not_viol, Res.isViol]
+    · intro fr f args tail st
+      simp only [callNamed]
+      all_goals (repeat' split)
+      all_goals grind [prim_not_viol, Res.isViol]
+    · intro fr c args tail st
+      simp only [callVal]
+      all_goals (repeat' split)
+      all_goals grind [prim_not_viol, Res.isViol]
+    · intro fr es st
+      cases es <;> simp only [evalList]
+      all_goals (repeat' split)
+      all_goals grind [prim_not_viol, Res.isViol]
+    · intro fr f st
+      simp only [mkClos]
+      all_goals (repeat' split)
+      all_goals grind [prim_not_viol, Res.isViol]
+    · intro fr ps st
+      cases ps <;> simp only [evalDflts]
+      all_goals (repeat' split)
+      all_goals grind [prim_not_viol, Res.isViol]
+    · intro h c args st
+      simp only [callUser]
+      all_goals (repeat' split)
+      all_goals grind [prim_not_viol, Res.isViol]
+    · intro h c args rec st
+      simp only [tramp]
+      all_goals (repeat' split)
+      all_goals grind [prim_not_viol, Res.isViol]
+    · intro fr ds st
+      simp only [evalDecls]
+      all_goals (repeat' split)
+      all_goals grind [prim_not_viol, Res.isViol]
+    · intro fr f args tail st
+      simp only [builtin]
+      all_goals (repeat' split)
+      all_goals grind [prim_not_viol, Res.isViol]
+
+/-! ### the call counter under a call limit `l`: it never decreases; started below `l`, the run ends
+in the call violation exactly when the counter reaches `l` (and then it is exactly `l`) -/
+
+structure CallsAt (cfg : Cfg) (l : Nat) (fuel : Nat) : Prop where
+  eval : ∀ fr e tail st, st.calls ≤ (eval fuel cfg fr e tail st).2.calls ∧ (st.calls < l → ((eval fuel cfg fr e tail st).1 = .viol .calls → (eval fuel cfg fr e tail st).2.calls = l) ∧ ((eval fuel cfg fr e tail st).1 ≠ .viol .calls → (eval fuel cfg fr e tail st).2.calls < l))
+  callNamed : ∀ fr f args tail st, st.calls ≤ (callNamed fuel cfg fr f args tail st).2.calls ∧ (st.calls < l → ((callNamed fuel cfg fr f args tail st).1 = .viol .calls → (callNamed fuel cfg fr f args tail st).2.calls = l) ∧ ((callNamed fuel cfg fr f args tail st).1 ≠ .viol .calls → (callNamed fuel cfg fr f args tail st).2.calls < l))
+  callVal : ∀ fr c args tail st, st.calls ≤ (callVal fuel cfg fr c args tail st).2.calls ∧ (st.calls < l → ((callVal fuel cfg fr c args tail st).1 = .viol .calls → (callVal fuel cfg fr c args tail st).2.calls = l) ∧ ((callVal fuel cfg fr c args tail st).1 ≠ .viol .calls → (callVal fuel cfg fr c args tail st).2.calls < l))
+  evalList : ∀ fr es st, st.calls ≤ (evalList fuel cfg fr es st).2.calls ∧ (st.calls < l → ((evalList fuel cfg fr es st).1 = .error (.viol .calls) → (evalList fuel cfg fr es st).2.calls = l) ∧ ((evalList fuel cfg fr es st).1 ≠ .error (.viol .calls) → (evalList fuel cfg fr es st).2.calls < l))
+  mkClos : ∀ fr f st, st.calls ≤ (mkClos fuel cfg fr f st).2.calls ∧ (st.calls < l → ((mkClos fuel cfg fr f st).1 = .viol .calls → (mkClos fuel cfg fr f st).2.calls = l) ∧ ((mkClos fuel cfg fr f st).1 ≠ .viol .calls → (mkClos fuel cfg fr f st).2.calls < l))
+  evalDflts : ∀ fr ps st, st.calls ≤ (evalDflts fuel cfg fr ps st).2.calls ∧ (st.calls < l → ((evalDflts fuel cfg fr ps st).1 = .error (.viol .calls) → (evalDflts fuel cfg fr ps st).2.calls = l) ∧ ((evalDflts fuel cfg fr ps st).1 ≠ .error (.viol .calls) → (evalDflts fuel cfg fr ps st).2.calls < l))
+  callUser : ∀ h c args st, st.calls ≤ (callUser fuel cfg h c args st).2.calls ∧ (st.calls < l → ((callUser fuel cfg h c args st).1 = .viol .calls → (callUser fuel cfg h c args st).2.calls = l) ∧ ((callUser fuel cfg h c args st).1 ≠ .viol .calls → (callUser fuel cfg h c args st).2.calls < l))
+  tramp : ∀ h c args rec st, st.calls ≤ (tramp fuel cfg h c args rec st).2.calls ∧ (st.calls < l → ((tramp fuel cfg h c args rec st).1 = .viol .calls → (tramp fuel cfg h c args rec st).2.calls = l) ∧ ((tramp fuel cfg h c args rec st).1 ≠ .viol .calls → (tramp fuel cfg h c args rec st).2.calls < l))
+  evalDecls : ∀ fr ds st, st.calls ≤ (evalDecls fuel cfg fr ds st).2.calls ∧ (st.calls < l → ((evalDecls fuel cfg fr ds st).1 = .error (.viol .calls) → (evalDecls fuel cfg fr ds st).2.calls = l) ∧ ((evalDecls fuel cfg fr ds st).1 ≠ .error (.viol .calls) → (evalDecls fuel cfg fr ds st).2.calls < l))
+  builtin : ∀ fr f args tail st, st.calls ≤ (builtin fuel cfg fr f args tail st).2.calls ∧ (st.calls < l → ((builtin fuel cfg fr f args tail st).1 = .viol .calls → (builtin fuel cfg fr f args tail st).2.calls = l) ∧ ((builtin fuel cfg fr f args tail st).1 ≠ .viol .calls → (builtin fuel cfg fr f args tail st).2.calls < l))
+
+set_option maxHeartbeats 4000000 in
+theorem callsAt (cfg : Cfg) (l : Nat) (hl : cfg.callLimit = some l) (fuel : Nat) : CallsAt cfg l fuel := by
+  induction fuel with
+  | zero =>
+    constructor <;> intros <;> simp [eval, callNamed, callVal, evalList, mkClos, evalDflts, callUser, tramp, evalDecls, builtin]
+  | succ n ih =>
+    obtain ⟨ihE, ihCN, ihCV, ihEL, ihMC, ihED, ihCU, ihT, ihDs, ihB⟩ := ih
+    constructor
+    · intro fr e tail st
+      cases e <;> simp only [eval]
+      all_goals (repeat' split)
+      all_goals grind [prim_not_viol, Res.isViol]
+    · intro fr f args tail st
+      simp only [callNamed]
+      all_goals (repeat' split)
+      all_goals grind [prim_not_viol, Res.isViol]
+    · intro fr c args tail st
+      simp only [callVal]
+      all_goals (repeat' split)
+      all_goals grind [prim_not_viol, Res.isViol]
+    · intro fr es st
+      cases es <;> simp only [evalList]
+      all_goals (repeat' split)
+      all_goals grind [prim_not_viol, Res.isViol]
+    · intro fr f st
+      simp only [mkClos]
+      all_goals (repeat' split)
+      all_goals grind [prim_not_viol, Res.isViol]
+    · intro fr ps st
+      cases ps <;> simp only [evalDflts]
+      all_goals (repeat' split)
+      all_goals grind [prim_not_viol, Res.isViol]
+    · intro h c args st
+      simp only [callUser]
+      all_goals (repeat' split)
+      all_goals grind [prim_not_viol, Res.isViol]
+    · intro h c args rec st
+      simp only [tramp]
+      all_goals (repeat' split)
+      all_goals grind [prim_not_viol, Res.isViol]
+    · intro fr ds st
+      simp only [evalDecls]
+      all_goals (repeat' split)
+      all_goals grind [prim_not_viol, Res.isViol]
+    · intro fr f args tail st
+      simp only [builtin]
+      all_goals (repeat' split)
+      all_goals grind [prim_not_viol, Res.isViol]
+
+/-! ### without a call limit the counter is never touched (whatever the other limits) -/
+
+structure NoCountAt (cfg : Cfg) (fuel : Nat) : Prop where
+  eval : ∀ fr e tail st, (eval fuel cfg fr e tail st).2.calls = st.calls
+  callNamed : ∀ fr f args tail st, (callNamed fuel cfg fr f args tail st).2.calls = st.calls
+  callVal : ∀ fr c args tail st, (callVal fuel cfg fr c args tail st).2.calls = st.calls
+  evalList : ∀ fr es st, (evalList fuel cfg fr es st).2.calls = st.calls
+  mkClos : ∀ fr f st, (mkClos fuel cfg fr f st).2.calls = st.calls
+  evalDflts : ∀ fr ps st, (evalDflts fuel cfg fr ps st).2.calls = st.calls
+  callUser : ∀ h c args st, (callUser fuel cfg h c args st).2.calls = st.calls
+  tramp : ∀ h c args rec st, (tramp fuel cfg h c args rec st).2.calls = st.calls
+  evalDecls : ∀ fr ds st, (evalDecls fuel cfg fr ds st).2.calls = st.calls
+  builtin : ∀ fr f args tail st, (builtin fuel cfg fr f args tail st).2.calls = st.calls
+
+theorem noCountAt (cfg : Cfg) (hl : cfg.callLimit = none) (fuel : Nat) : NoCountAt cfg fuel := by
+  induction fuel with
+  | zero =>
+    constructor <;> intros <;> simp [eval, callNamed, callVal, evalList, mkClos, evalDflts, callUser, tramp, evalDecls, builtin]
+  | succ n ih =>
+    obtain ⟨ihE, ihCN, ihCV, ihEL, ihMC, ihED, ihCU, ihT, ihDs, ihB⟩ := ih
+    constructor
+    · intro fr e tail st
+      cases e <;> simp only [eval]
+      all_goals (repeat' split)
+      all_goals grind [prim_not_viol, Res.isViol]
+    · intro fr f args tail st
+      simp only [callNamed]
+      all_goals (repeat' split)
+      all_goals grind [prim_not_viol, Res.isViol]
+    · intro fr c args tail st
+      simp only [callVal]
+      all_goals (repeat' split)
+      all_goals grind [prim_not_viol, Res.isViol]
+    · intro fr es st
+      cases es <;> simp only [evalList]
+      all_goals (repeat' split)
+      all_goals grind [prim_not_viol, Res.isViol]
+    · intro fr f st
+      simp only [mkClos]
+      all_goals (repeat' split)
+      all_goals grind [prim_not_viol, Res.isViol]
+    · intro fr ps st
+      cases ps <;> simp only [evalDflts]
+      all_goals (repeat' split)
+      all_goals grind [prim_not_viol, Res.isViol]
+    · intro h c args st
+      simp only [callUser]
+      all_goals (repeat' split)
+      all_goals grind [prim_not_viol, Res.isViol]
+    · intro h c args rec st
+      simp only [tramp]
+      all_goals (repeat' split)
+      all_goals grind [prim_not_viol, Res.isViol]
+    · intro fr ds st
+      simp only [evalDecls]
+      all_goals (repeat' split)
+      all_goals grind [prim_not_viol, Res.isViol]
+    · intro fr f args tail st
+      simp only [builtin]
+      all_goals (repeat' split)
+      all_goals grind [prim_not_viol, Res.isViol]
+
 
 end XrayModel.CoreLimits
